@@ -443,7 +443,8 @@ Lemma batch_posts_gen beg docs : short_docs docs -> beg + N.of_nat (length docs)
       Done (concat (map (fun t => encode_spec (tp_from beg docs t)) ts), nb) /\
     match concat (map (fun t => encode_spec (tp_from beg docs t)) ts) with
     | [] => []
-    | enc => slices_by_bounds enc (take_idx (map t_term sorted) (term_starts (map t_term sorted))) nb
+    | _ :: _ => slices_by_bounds (concat (map (fun t => encode_spec (tp_from beg docs t)) ts))
+                  (take_idx (map t_term sorted) (term_starts (map t_term sorted))) nb
     end = batch_posts beg docs ts.
 Proof.
   intros Hs Hn sorted.
@@ -495,7 +496,7 @@ Proof.
       cbn [app length] in SL. change (N.of_nat 0) with 0 in SL. rewrite map_map in SL.
       rewrite Esegs, map_map. rewrite SL by (now rewrite map_length).
       unfold batch_posts. clear. induction ts as [|t ts IH]; [reflexivity|]. cbn [map combine]. now rewrite IH. }
-    destruct (concat (map (fun t => encode_spec (tp_from beg docs t)) ts)) eqn:Ec; [|exact Hsl].
+    destruct (concat (map (fun t => encode_spec (tp_from beg docs t)) ts)) eqn:Ec in |- * at 1; [|exact Hsl].
     exfalso. destruct ts as [|t0 ts0]; [apply Hgs; rewrite Egs; reflexivity|].
     cbn [map concat] in Ec. apply app_eq_nil in Ec. destruct Ec as [Ec _].
     revert Ec. apply encode_spec_nonempty. rewrite tp_nil_iff. intro Hc. apply Hc, Hkeys. left. reflexivity.
@@ -688,6 +689,6 @@ Theorem build_batch_correct beg docs : short_docs docs -> beg + N.of_nat (length
 Proof.
   intros Hs Hn. destruct (batch_posts_gen beg docs Hs Hn) as (ts & K & Hkeys & nb & EB & SL). cbn zeta in *.
   exists ts. split; [exact K|]. split; [exact Hkeys|].
-  unfold build_batch. rewrite EB. cbn [lift abind]. rewrite SL, doc_lens_correct, lens_no_overflow by exact Hs.
+  unfold build_batch. rewrite EB. cbn [lift abind]. cbv beta iota zeta. rewrite SL, doc_lens_correct, lens_no_overflow by exact Hs.
   reflexivity.
 Qed.
